@@ -2,7 +2,7 @@
    Statement-only file.  Model: Query/Phrase.v (line-level bigram chain).  Spec: Query/Phrase_Spec.v. *)
 From Coq Require Import Sorted.
 From SA Require Import Base.Prelude Codec.Codec_Spec Index.Index Query.Phrase Query.Phrase_Spec
-  Query.Phrase_Proofs Query.Phrase_Proofs2 Query.Phrase_Proofs3 Query.Phrase_Final Index.Index_Spec.
+  Query.Phrase_Proofs Query.Phrase_Proofs2 Query.Phrase_Proofs3 Query.Phrase_Final Index.Index_Spec Query.Phrase_Repeats.
 Open Scope N_scope.
 
 (* MAIN THEOREM: for every corpus within the limits, every batch size, every phrase of two or more terms in which
@@ -56,3 +56,16 @@ Example C03_witnesses :
   | AOk ix => phrase_freqs ix [1;2;3;1;2] = AOk (phrase_spec [[1;2;9;3;1;2];[1;2];[1;2]] [1;2;3;1;2])
   | _ => False end.
 Proof. vm_compute. reflexivity. Qed.
+
+(* SECOND SENTENCE OF THE PROPERTY — every phrase of two or more terms, INCLUDING immediate repetitions ('a a b'),
+   terms present in the corpus or not: the frequency is positive exactly for the documents containing the phrase
+   contiguously, and lies between the number of non-overlapping (greedy) and overlapping occurrences.
+   Every corpus within the limits, every batch size.  (Query/Phrase_Repeats.v: the same-term bigram step is
+   characterised on all 2^18 payloads by a computed check; both chain directions and the strategy chooser.) *)
+Theorem C03_every_phrase_bounds : forall docs bs ph, wf_docs docs -> (2 <= length ph)%nat ->
+  exists ix res, index false bs docs = AOk ix /\ phrase_freqs ix ph = AOk res /\ length res = length docs /\
+    forall d, (d < length docs)%nat ->
+      (nth d res 0 > 0 <-> occ ph (nth d docs []) > 0) /\
+      nonoverlapping ph (nth d docs []) <= nth d res 0 <= occ ph (nth d docs []).
+Proof. exact phrase_repeats_bounds. Qed.
+Print Assumptions C03_every_phrase_bounds.
